@@ -14,6 +14,7 @@ type ValOpts struct {
 	Marks   bool
 	DynVal  bool // cty.DynamicVal as a nested member
 	NoInf   bool
+	Small   bool // tiny primitive domains, so that equal members and collisions are frequent
 	Width   int
 }
 
@@ -37,6 +38,16 @@ var decimalPool = []string{"0.1", "0.5", "1.5", "-2.25", "3.9477794105", "0.3000
 	"179769313486231570000000000000000000000", "340282366920938463463374607431768211456", "0.1e1", "12345678901234567890123456789012345678901234567890"}
 
 func genNumber(r *rand.Rand, o ValOpts) cty.Value {
+	if o.Small && r.Intn(4) != 0 {
+		switch r.Intn(6) {
+		case 0:
+			return cty.NumberFloatVal(0.5)
+		case 1:
+			return cty.MustParseNumberVal("0.5")
+		default:
+			return cty.NumberIntVal(int64(r.Intn(3)))
+		}
+	}
 	switch r.Intn(12) {
 	case 0, 1, 2:
 		return cty.NumberIntVal(int64(r.Intn(11) - 3))
@@ -200,6 +211,9 @@ func genValUnmarked(r *rand.Rand, t cty.Type, depth int, o ValOpts) cty.Value {
 	case t == cty.Number:
 		return genNumber(r, o)
 	case t == cty.String:
+		if o.Small && r.Intn(4) != 0 {
+			return cty.StringVal([]string{"a", "b", ""}[r.Intn(3)])
+		}
 		return cty.StringVal(genString(r))
 	case t.IsCapsuleType():
 		return cty.CapsuleVal(t, capsulePayloads[r.Intn(len(capsulePayloads))])
